@@ -14,6 +14,7 @@ PROP = {
         "translator: hsms.IsValidSType and the SType / reject-reason / status / state constants are regenerated from /repo into Gen.v and bridged to the model (Gen/BridgeSendCore.v)",
         "atomicity of the LTS steps as read from the code (DESIGN.md Appendix A.2): one read of the supervisor state per gate, registry Store/Load/Delete linearizable, a cap-1 channel per waiter, a sequential recv goroutine",
         "abstractions that only add behaviours: writeMu not modelled, unbounded async queue, lifecycle actions enabled whenever structurally possible",
+        "current step function = fx true (af6ced9: the sender ignores a routed control response) with the data-only registry DW true (b22156a); the original and the af6ced9-only step functions are kept as refuted witnesses",
         "defaults only: session-id validation, decode-error handlers, autoS9F9 and channel handlers are off in the model",
         "'no earlier than T3' is the enabledness of the timer completion (now >= t_written + T3) in the model and a lower bound on measured elapsed time in the e2e runs; timer precision is runtime behaviour",
     ],
